@@ -391,17 +391,19 @@ def emptied_store_history(args):
         shutil.rmtree(d, ignore_errors=True)
 
 
-def import_part(out, wd, seed):
+def import_part(out, wd, seed, restart_after_import=False):
     """ids stamped by the transfer IMPORT: node A builds > 100 history entries (3 keys x 45 publishes), exports; a fresh node B
-    imports the file and then publishes itself; every history id on B is unique and B's own publishes continue above them"""
+    imports the file and then publishes itself; every history id on B is unique and B's own publishes continue above them.
+    restart_after_import: B is stopped (quiescent) and restarted between the import and its own publishes"""
     import procrig
     from c18 import multipart
     V1 = "/rnacos/api/console"
     info = {}
     a = b = None
     try:
-        a = procrig.Node(os.path.join(wd, "imp"), 1, name="imp-a")
-        b = procrig.Node(os.path.join(wd, "imp"), 1, name="imp-b")
+        sub = "imp-r" if restart_after_import else "imp"
+        a = procrig.Node(os.path.join(wd, sub), 1, name="imp-a")
+        b = procrig.Node(os.path.join(wd, sub), 1, name="imp-b")
         a.start()
         b.start()
         keys = ["imp%d" % i for i in range(3)]
@@ -431,6 +433,26 @@ def import_part(out, wd, seed):
             time.sleep(0.3)
         else:
             raise common.Inconclusive("imported configs not served by node B within 20 s")
+        if restart_after_import:
+            # the importing node stops right behind the import - at a quiescent point (applied index == log end, and on disk) - and
+            # rebuilds its id sequences from its log: what the import stamped must not be handed out again
+            import noderig
+            t0 = time.time()
+            quiet = False
+            while time.time() - t0 < 15 and not quiet:
+                m = b.metrics() or {}
+                quiet = m.get("last_applied") is not None and m.get("last_applied") == m.get("last_log_index") == noderig.applied_index_on_disk(b.dir)
+                if not quiet:
+                    time.sleep(0.2)
+            if not quiet:
+                raise common.Inconclusive("node B not quiescent 15 s after the import: %s / on disk %s" % (b.metrics(), noderig.applied_index_on_disk(b.dir)))
+            time.sleep(0.3)
+            b.kill()
+            b.start()
+            tb, r2 = b.console_login("admin", "admin", wait=15)
+            if not tb:
+                raise common.Inconclusive("console login after the restart failed")
+            info["restarted_after_import"] = True
         for j in range(6):
             for k in keys:
                 b.post("/nacos/v1/cs/configs", form={"dataId": k, "group": "c19imp", "content": "%s-own%d" % (k, j)}, timeout=8)
@@ -456,9 +478,9 @@ def import_part(out, wd, seed):
         if sum(len(v) for v in hist.values()) < 100:
             info["status"] = "inconclusive: fewer than 100 history entries arrived on node B"
         elif bad:
-            out.violation(bad[0], dict(bad[1], imported_entries=n_pub * len(keys), own_publishes_after_import=18))
+            out.violation(bad[0] + ("/after-quiescent-restart-behind-the-import" if restart_after_import else ""), dict(bad[1], imported_entries=n_pub * len(keys), own_publishes_after_import=18, restart_after_import=restart_after_import))
         else:
-            out.shape("import/%d-history-entries-then-own-publishes" % (sum(len(v) for v in hist.values()) // 50 * 50))
+            out.shape("import/%d-history-entries-then-%sown-publishes" % (sum(len(v) for v in hist.values()) // 50 * 50, "restart-then-" if restart_after_import else ""))
             info["status"] = "held"
     except common.Inconclusive as e:
         info["status"] = "inconclusive: %s" % str(e)[:300]
@@ -468,7 +490,7 @@ def import_part(out, wd, seed):
         for n in (a, b):
             if n is not None:
                 n.kill()
-    out.extra["import_part"] = info
+    out.extra["import_part" + ("_restart" if restart_after_import else "")] = info
 
 
 def cluster_run(args):
@@ -680,7 +702,8 @@ def run(tier, seed):
             for sh in r["shapes"]:
                 out.shape(sh)
         out.extra["cluster_part"] = cagg
-        import_part(out, wd, seed)
+        with ThreadPoolExecutor(max_workers=2) as ex:
+            list(ex.map(lambda r: import_part(out, wd, seed, restart_after_import=r), (False, True)))
         out.min_nontrivial = 5
         out.assumptions = ["gaps are allowed; ids of requests that were in flight when the node was killed are never observed and not counted",
                            "logical time = driver steps (one driver per node), so no wall-clock comparison is involved",
